@@ -179,7 +179,10 @@ func (h Handler) ServeHTTP(w http.ResponseWriter, r *http.Request) (int, error) 
 			// Write the response body
 			_, err = io.Copy(w, resp.Body)
 			if err != nil {
-				return http.StatusBadGateway, err
+				// The response header is already written: report the error so it
+				// can be logged, but with status 0 so that nobody appends an error
+				// page to the part of the response the client already has.
+				return 0, err
 			}
 
 			// Log any stderr output from upstream
